@@ -316,6 +316,7 @@ func checkC02(c *Ctx, r *Result, tier string) {
 
 	// ---- R02d lock order -------------------------------------------------------------------------------
 	checkLockOrder(c, r, lfs, "R02d-lock-order", engineLockClass)
+	r.Extra["reentrance_call_sites"] = checkReentrance(c, r, lfs, "R02d-reentry", func(class string) bool { return strings.HasPrefix(class, "engine.") || strings.HasPrefix(class, "pubsub.") })
 }
 
 // c02Wait: observer registered before the event is added; Wait passed whenever a monitor is returned.
